@@ -288,6 +288,18 @@ Inductive scram_op :=
   | OpAuthextra (fresh_nonce : str)          (* the authextra property is read (HELLO); os.urandom yields fresh_nonce *)
   | OpChallenge (x : scram_extra)            (* on_challenge(session, Challenge("scram", x)) *)
   | OpWelcome (sig : option pyval).          (* on_welcome(session, authextra); None: no "scram_server_signature" key *)
+(* WELCOME.Details as far as the session's gate and AuthScram.on_welcome read them *)
+Inductive sigval := SvText (v : pyval)        (* authextra["scram_server_signature"] is a str or bytes *)
+                  | SvOther.                  (* any other value (int, null, list, dict, bool, float) *)
+Inductive w_authextra := AxAbsent             (* msg.authextra is None: "authextra" absent or null *)
+                       | AxDict (sig : option sigval).   (* a dict; None: it has no "scram_server_signature" key *)
+Inductive gate := GateSkip                    (* onWelcome returns None without consulting any authenticator *)
+                | GateDeny                    (* onWelcome returns an error string *)
+                | GateUnknown                 (* RuntimeError: WELCOME names an authmethod that is not configured *)
+                | GateRun (m : str).          (* the authenticator registered under m decides *)
+Inductive session_outcome := Joined | Aborted.
+Fixpoint mem_str (m : str) (l : list str) : bool :=
+  match l with [] => false | x :: r => list_eqb m x || mem_str m r end.
 Inductive welcome_verdict := Accept (* returns None *) | Deny (* returns the error string -> session ABORTs *).
 
 Inductive authmethod := MScram | MCryptosign | MCryptosignProxy | MWampCra | MAnonymous | MAnonymousProxy | MTicket.
@@ -486,6 +498,52 @@ Section Glue.
       let '(o1, out) := scram_obj_step decode_salt password authid o op in
       let '(o2, outs) := scram_obj_run decode_salt password authid o1 r in
       (o2, out :: outs)
+    end.
+
+  (* ---- mutual authentication THROUGH THE SESSION ----
+     protocol.py: ApplicationSession.onMessage, first message WELCOME: d = as_future(self.onWelcome, msg); a result
+     other than None or an exception -> ABORT wamp.error.cannot_authenticate, the session is not joined; None -> the
+     session is set up and onJoin fires.
+     protocol.py: _SessionShim.onWelcome(msg) is the GATE in front of IAuthenticator.on_welcome:
+         if msg.authmethod is None or self._authenticators is None: return          # "no authentication"
+         try: authenticator = self._authenticators[msg.authmethod]
+         except KeyError: raise RuntimeError(...)
+         return authenticator.on_welcome(self, msg.authextra)
+     [strict] = false is this code; true is the variant that refuses a WELCOME without authmethod when authenticators
+     are configured and none of them is anonymous (returns an error string).  harness/props/c19.py reads which one
+     the tree under test is off the AST (fail closed). *)
+  Definition shim_welcome_gate (strict : bool) (configured : option (list str)) (authmethod : option str) : gate :=
+    match configured with
+    | None => GateSkip                                                    (* self._authenticators is None *)
+    | Some names =>
+      match authmethod with
+      | None =>
+        if strict then
+          if mem_str (lit "anonymous") names || mem_str (lit "anonymous-proxy") names then GateSkip else GateDeny
+        else GateSkip
+      | Some m => if mem_str m names then GateRun m else GateUnknown      (* KeyError -> RuntimeError *)
+      end
+    end.
+  (* AuthScram.on_welcome(session, msg.authextra) as the session calls it: authextra None -> None["..."] is a TypeError;
+     key missing -> KeyError; a value that is neither str nor bytes -> base64.b64decode raises TypeError *)
+  Definition scram_session_on_welcome (o : scram_obj) (ax : w_authextra) : result welcome_verdict :=
+    match ax with
+    | AxAbsent => Raise TypeError
+    | AxDict None => Raise KeyError
+    | AxDict (Some SvOther) => Raise TypeError
+    | AxDict (Some (SvText v)) => scram_obj_on_welcome o (Some v)
+    end.
+  (* on_welcome of the authenticator registered under [m]: AuthAnonymous / AuthTicket / AuthCryptoSign / AuthWampCra
+     (and the -proxy variants) return None unconditionally *)
+  Definition authenticator_on_welcome (o : scram_obj) (m : str) (ax : w_authextra) : result welcome_verdict :=
+    if list_eqb m (lit "scram") then scram_session_on_welcome o ax else Ok Accept.
+  Definition session_on_welcome (strict : bool) (configured : option (list str)) (o : scram_obj)
+             (authmethod : option str) (ax : w_authextra) : session_outcome :=
+    match shim_welcome_gate strict configured authmethod with
+    | GateSkip => Joined
+    | GateDeny => Aborted
+    | GateUnknown => Aborted
+    | GateRun m => match authenticator_on_welcome o m ax with Ok Accept => Joined | _ => Aborted end
     end.
 
   (* auth.py: derive_scram_credential with an explicit 16-octet salt: (stored-key, server-key) before hexlify;
